@@ -41,7 +41,7 @@ def c13(chk):
 def c05(chk):
     chk.rule = ("every token sequence up to the length bound over the sequence alphabets {1 x ( ) , ;} (+ = + +=); "
                 "non-trivial = distinct well-formed sequences that contain both ',' and ';'")
-    rel = {"wf_tree", "panic", "balanced_reported_unbalanced", "unbalanced_accepted"}
+    rel = {"wf_tree", "seq_value", "panic", "balanced_reported_unbalanced", "unbalanced_accepted"}
     if chk.tier == "quick":
         tokens(chk, "seq", 7, rel, ["wf_comma_and_semicolon"])
         tokens(chk, "seqas", 5, rel, ["wf_comma_and_semicolon"])
@@ -86,20 +86,43 @@ def c14(chk):
     if chk.tier == "quick":
         tokens(chk, "core", 4, rel, ["wf_with_identifiers"])
         tokens(chk, "call", 5, rel, ["wf_with_identifiers"])
+        tokens(chk, "idents", 5, rel, ["wf_with_identifiers"])
     else:
         tokens(chk, "core", 6, rel, ["wf_with_identifiers"], workers=16, timeout=3000)
         tokens(chk, "call", 6, rel, ["wf_with_identifiers"], workers=16)
+        tokens(chk, "idents", 6, rel, ["wf_with_identifiers"], workers=16)
         tokens(chk, "seqas", 7, rel, ["wf_with_identifiers"], workers=16, timeout=3000)
 
 
 def c01(chk):
     chk.rule = ("every enumerated input is run through all 48 entry points on 4 contexts plus Display/Debug; "
                 "non-trivial = distinct inputs (all classes)")
-    if chk.tier == "quick":
+    chk.assumptions.append("4096-character maximal-nesting inputs run on an 8 MiB stack (the default main-thread stack); the README "
+                           "tells users to bound input length because parsing and evaluation recurse")
+    quick = chk.tier == "quick"
+    pool = "quick" if quick else "full"
+    if quick:
         tokens(chk, "core", 5, PANIC, ["if", "wf", "unspec"])
     else:
         tokens(chk, "core", 6, PANIC, ["if", "wf", "unspec"], workers=16, timeout=3000)
         tokens(chk, "wide", 5, PANIC, ["if", "wf", "unspec"], workers=16)
+    # every builtin x every argument shape, in the dev profile (overflow checks on) and, thorough, in the release profile
+    prims = vf.make_prims("builtins", chk.outdir, pool=pool)
+    for release in ((False,) if quick else (False, True)):
+        info, summ = vf.run_model(f"builtins_{pool}_{'release' if release else 'dev'}", "MC_Builtins.tla", {"PoolName": pool},
+                                  chk.outdir, workers=12 if quick else 16, env_extra={"PRIMS": prims}, timeout=3000,
+                                  harness=vf.build_harness(release=release))
+        chk.add_model(info, summ, PANIC, ["builtin_nontrivial"],
+                      note=f"49 builtins x argument shapes, harness built in the {'release' if release else 'dev'} profile")
+    prims = vf.make_prims("ops", chk.outdir, pool=pool)
+    info, summ = vf.run_model("ops_" + pool, "MC_Ops.tla", {"PoolName": pool}, chk.outdir, workers=12 if quick else 16,
+                              env_extra={"PRIMS": prims})
+    chk.add_model(info, summ, PANIC, ["op_nontrivial"], note="16 operators x pool^2 (overflow corners such as MIN % -1, MIN / -1, -MIN)")
+    if not quick:
+        ctx_model(chk, "small", PANIC, workers=16)
+    chk.add_traces("trace_deep", "deep", 1, 1 if quick else 3, "deep",
+                   note="4096-character inputs of maximal nesting (parentheses, prefix operators, application, assignment, "
+                        "sum and power chains, tuples, chains, long literals and comments, random fragments)")
     traces(chk, "fuzz", "trace_fuzz", quick=(4, 2000), thorough=(16, 20000),
            note="random strings: a recorded panic matches no action of the specification")
 
@@ -256,6 +279,9 @@ def c06(chk):
     info, summ = vf.run_model(f"lex_strings{sl}", "MC_Lex.tla", {"Family": "strings", "MaxLen": sl}, chk.outdir,
                               workers=12 if chk.tier == "quick" else 16, timeout=3000)
     chk.add_model(info, summ, {"literal", "panic"}, ["wf"], note=f"MC_Lex.tla string bodies up to length {sl} x 3 quotings")
+    info, summ = vf.run_model(f"lex_raw{sl - 1}", "MC_Lex.tla", {"Family": "raw", "MaxLen": sl - 1}, chk.outdir,
+                              workers=12 if chk.tier == "quick" else 16, timeout=3000)
+    chk.add_model(info, summ, {"literal", "panic"}, ["wf", "lexerr"], note=f"MC_Lex.tla raw source texts up to length {sl - 1}")
 
 
 def c07(chk):
@@ -268,7 +294,7 @@ def c07(chk):
     cands = {"".join(t) for n in range(1, 6) for t in itertools.product(pieces, repeat=n)}
     prims = vf.make_prims("sep", chk.outdir, extra={"words": [[ord(c) for c in w] for w in sorted(cands)]})
     if chk.tier == "quick":
-        runs = [(3, "small")]
+        runs = [(3, "small"), (2, "medium")]
     else:
         runs = [(3, "large"), (4, "small")]
     for maxlen, sepset in runs:
@@ -300,6 +326,10 @@ def c16(chk):
     info, summ = vf.run_model("serde_strings", "MC_Lex.tla", {"Family": "strings", "MaxLen": 4 if quick else 5}, chk.outdir,
                               harness=hbin, workers=8)
     chk.add_model(info, summ, rel, ["node_nontrivial"], note="string bodies with quotes, backslashes, newlines, non-ASCII")
+    info, summ = vf.run_model("serde_raw", "MC_Lex.tla", {"Family": "raw", "MaxLen": 4 if quick else 5}, chk.outdir,
+                              harness=hbin, workers=8)
+    chk.add_model(info, summ, rel, ["node_nontrivial"],
+                  note="raw source texts with blanks at either end, lone & and |, stray quotes and backslashes (error messages)")
     prims = vf.make_prims("ctx", chk.outdir, extra={"floats": CTX_FLOATS})
     info, summ = vf.run_model("serde_ctx", "MC_Ctx.tla", {"Size": "small", "WithSerde": True}, chk.outdir, harness=hbin,
                               invariants=("TypeOK",), properties=CTX_PROPS, view="View", constraint="InDomain", workers=12,
